@@ -122,7 +122,7 @@ fn eq_forms(a_u: &UnionCal, b_u: &UnionCal, a_c: Option<&Cal>, b_c: Option<&Cal>
     v
 }
 
-const N_EQ: u32 = 40;
+const N_EQ: u32 = 44;
 
 /// returns (description, expected equal?, comparisons)
 fn equality_scenario(id: u32) -> Option<(String, bool, Vec<(String, bool)>)> {
@@ -213,6 +213,37 @@ fn equality_scenario(id: u32) -> Option<(String, bool, Vec<(String, bool)>)> {
             let c2 = cal_of(&hs);
             let u2 = UnionCal::new(vec![c2.clone()], None);
             Some(("NamedCal vs Cal differing on 1970-01-02".into(), false, eq_forms(&u2, &u2, None, Some(&c2), Some(&n), None).into_iter().filter(|(f, _)| f.contains("Named")).collect()))
+        }
+        38 => {
+            // settlement differs ONLY on days that are non-business in both (shared weekends): "tgt" can always
+            // settle, "tgt|bus" never on Saturday / Sunday - they disagree on settlement days, hence unequal
+            let a = NamedCal::try_new("tgt|bus").unwrap();
+            let b = NamedCal::try_new("tgt").unwrap();
+            let au = UnionCal::new(vec![get_calendar_by_name("tgt").unwrap()], Some(vec![get_calendar_by_name("bus").unwrap()]));
+            let bu = UnionCal::new(vec![get_calendar_by_name("tgt").unwrap()], None);
+            let bc = get_calendar_by_name("tgt").unwrap();
+            Some(("settlement differs only on shared weekend days (tgt|bus vs tgt)".into(), false, eq_forms(&au, &bu, None, Some(&bc), Some(&a), Some(&b))))
+        }
+        39 => {
+            let sat = days_from_civil(2015, 9, 12);
+            let mut a3 = h3.clone();
+            a3.push(sat);
+            let b = UnionCal::new(vec![cal_of(&h1), cal_of(&h2)], Some(vec![cal_of(&a3)]));
+            // a settlement-calendar holiday on a Saturday changes nothing: Saturday is already closed there
+            Some(("settlement-calendar holiday added on a day its week mask already closes".into(), true, eq_forms(&base_u, &b, None, None, None, None)))
+        }
+        40 => {
+            // settlement calendar open on Saturdays in one, closed in the other; business calendars closed on Saturday in both
+            let open_sat = Cal::new(h3.iter().map(|z| to_ndt(*z)).collect(), vec![6]);
+            let a = UnionCal::new(vec![cal_of(&h1), cal_of(&h2)], Some(vec![open_sat]));
+            Some(("settlement week masks differ on a day that is non-business in both".into(), false, eq_forms(&base_u, &a, None, None, None, None)))
+        }
+        41 => {
+            let sat = days_from_civil(2015, 9, 12);
+            let mut a1 = h1.clone();
+            a1.push(sat);
+            let b = UnionCal::new(vec![cal_of(&a1), cal_of(&h2)], Some(vec![cal_of(&h3)]));
+            Some(("member holiday added on a day the week mask already closes".into(), true, eq_forms(&base_u, &b, None, None, None, None)))
         }
         _ => None,
     }
